@@ -107,6 +107,10 @@ type SwapStateMachine struct {
 
 	stateMutex  sync.Mutex
 	stateChange *sync.Cond
+
+	// lockedScid is the normalized channel id the swap was locked in with. It
+	// is only accessed by SwapService.lockSwap, under the service lock.
+	lockedScid string
 }
 
 func (s *SwapStateMachine) setState(newState StateType) {
